@@ -40,6 +40,14 @@ def rng_rules(rep, prog, f, seed_param="random_state", unseeded_live=False):
         if e.kind == "draw_gen":
             g = e.what
             ok = isinstance(g.seed, RG.SeedV) and g.seed.api == f.qname
+            if not ok and isinstance(g.seed, tuple) and g.seed and g.seed[0] == "either":
+                alts = g.seed[1:]
+                if any(isinstance(a, RG.NoneV) for a in alts) and any(isinstance(a, RG.SeedV) for a in alts):
+                    rep.bad("R1.generator", ewhere(e), "with a seed given, this draw comes either from a generator built from it or from an *unseeded* one, depending on a "
+                            "test the seeded mode does not decide (e.g. isinstance(%s, int), false for numpy integers): such seeds are silently ignored%s" % (seed_param, via))
+                else:
+                    rep.unk("R1.generator", ewhere(e), "draw from one of several generators (%r): not decided%s" % (g.seed, via))
+                continue
             rep.decide("R1.generator", ok, ewhere(e), "draw from a generator seeded with %s.%s%s" % (f.name, seed_param, via),
                       "draw from a generator that is not seeded with %s's %s (seed: %r)%s" % (f.name, seed_param, g.seed, via))
         else:
